@@ -1,7 +1,7 @@
 #!/bin/sh
 # tools/runall.sh <tier> [ids...]: run checks one after another (each uses all cores), log to /var/tmp/logs/all.<tier>.log
 t=${1:-quick}; shift
-ids="$@"; [ -z "$ids" ] && ids="C20 C16 C14 C08 C12 C11 C03 C04 C07 C06 C05 C09 C02 C10 C15 C17 C01 C13"
+ids="$@"; [ -z "$ids" ] && ids="C20 C16 C14 C08 C18 C12 C11 C03 C04 C07 C06 C05 C09 C02 C10 C15 C17 C01 C13"
 cd /verif
 for p in $ids; do
   s=$(date +%s)
